@@ -174,7 +174,7 @@ def _fmt(law):
     return {repr(k): round(v, 10) for k, v in sorted(law.items(), key=repr)}
 
 
-def walk(ad, rng, max_steps, stats, case_of, keys=None, prefer=None, trace=None):
+def walk(ad, rng, max_steps, stats, case_of, keys=None, prefer=None, trace=None, budget=120000):
     """One seeded walk.  Returns list of violations."""
     res = ad.run([])
     if res.status == "exc":
@@ -196,7 +196,12 @@ def walk(ad, rng, max_steps, stats, case_of, keys=None, prefer=None, trace=None)
     prefix = []
     nev = 0
     lam = res.next_clock
+    runs0 = stats.get("probe_runs", 0)
     for step in range(max_steps):
+        if stats.get("probe_runs", 0) - runs0 > budget:
+            # bounded cost per walk: stop walking (not a verdict)
+            stats["walks_stopped_by_budget"] = stats.get("walks_stopped_by_budget", 0) + 1
+            break
         if keys is not None:
             keys.add("%s|%s" % (ad.case_digest, "".join(map(str, state))))
         stats["states_probed"] = stats.get("states_probed", 0) + 1
